@@ -37,8 +37,70 @@ RESIDUE = ["float value columns (order-dependent sums) are not covered",
            "unsigned value dtypes and user-supplied aggregation callables other than sum/max/min are not modelled"]
 
 SIG_I64 = "int64-aggregate-wraps"     # D19: some exact per-pixel aggregate outside int64
+SIG_F2I = "float-aggregate-into-int-column"   # a non-integral / NaN aggregate written into an integer output column
 SIG_TOT = "int64-total-wraps"         # D28: every per-pixel sum fits, the exact sum of all stored counts does not
 I64 = (-2 ** 63, 2 ** 63 - 1)
+
+
+# --------------------------------------------------------------------- aggregation kinds
+def _range(v):          # a callable aggregate with f([x]) = 0 != x
+    return v.max() - v.min()
+
+
+def _sumsq(v):          # a callable aggregate with f([x]) = x*x
+    return (v * v).sum()
+
+
+CALLABLES = {"callable:range": _range, "callable:sumsq": _sumsq}
+
+
+def _var(vs):
+    if len(vs) < 2:
+        return float("nan")
+    m = sum(vs) / len(vs)
+    return sum((x - m) ** 2 for x in vs) / (len(vs) - 1)
+
+
+def _median(vs):
+    t = sorted(vs)
+    n = len(t)
+    return float(t[n // 2]) if n % 2 else (t[n // 2 - 1] + t[n // 2]) / 2
+
+
+def _prod(vs):
+    p = 1
+    for x in vs:
+        p *= x
+    return p
+
+
+# independent reading of every aggregate pandas accepts in `agg` (values of one pixel, in input order)
+AGG_REF = {
+    "sum": sum, "max": max, "min": min,
+    "mean": lambda vs: sum(vs) / len(vs),
+    "first": lambda vs: vs[0], "last": lambda vs: vs[-1],
+    "size": len, "count": len, "nunique": lambda vs: len(set(vs)),
+    "var": _var, "std": lambda vs: _var(vs) ** 0.5, "median": _median, "prod": _prod,
+    "callable:range": lambda vs: max(vs) - min(vs), "callable:sumsq": lambda vs: sum(x * x for x in vs),
+}
+FLOAT_AGGS = {"mean", "var", "std", "median"}          # float-valued whatever the input dtype
+MODEL_AGGS = {"sum", "max", "min"}
+
+
+def same(a, b):
+    """equality of observables: exact on ints/strings, NaN-aware with a relative slack of 1e-9 on floats
+    (pandas' var/std use a different but equivalent summation order)"""
+    if isinstance(a, float) or isinstance(b, float):
+        if not isinstance(a, (int, float)) or not isinstance(b, (int, float)) or isinstance(a, bool) or isinstance(b, bool):
+            return False
+        if a != a or b != b:
+            return a != a and b != b
+        return abs(a - b) <= 1e-9 * max(1.0, abs(a), abs(b))
+    if isinstance(a, dict) and isinstance(b, dict):
+        return a.keys() == b.keys() and all(same(a[k], b[k]) for k in a)
+    if isinstance(a, (list, tuple)) and isinstance(b, (list, tuple)):
+        return len(a) == len(b) and all(same(x, y) for x, y in zip(a, b))
+    return a == b
 
 
 # --------------------------------------------------------------------- workspace
@@ -101,7 +163,7 @@ def _merge_api(out, uris, case):
     if case.get("dtypes"):
         kw["dtypes"] = {c: G.np_dtype(b) for c, b in case["dtypes"].items()}
     if case.get("agg"):
-        kw["agg"] = dict(case["agg"])
+        kw["agg"] = {c: CALLABLES.get(a, a) for c, a in case["agg"].items()}
     if case.get("mode_a"):
         kw["mode"] = "a"
     cooler.merge_coolers(out, uris, mergebuf=case["mergebuf"], **kw)
@@ -228,7 +290,7 @@ def _fits(tok, v):
 def modelled(case):
     """the Gallina model covers signed integer value columns; other dtypes are checked against the oracle only"""
     toks = [b for i in case["inputs"] for _, b in i["cols"]] + list((case.get("dtypes") or {}).values())
-    return all(G.is_signed_int(t) for t in toks)
+    return all(G.is_signed_int(t) for t in toks) and all(a in MODEL_AGGS for a in (case.get("agg") or {}).values())
 
 
 def oracle(case):
@@ -237,7 +299,7 @@ def oracle(case):
     cols_req = case["columns"] if case.get("columns") is not None else ["count"]
     agg = {c: "sum" for c in cols_req}
     agg.update(case.get("agg") or {})
-    flags = {"i64": False, "tot64": False}
+    flags = {"i64": False, "tot64": False, "f2i": False}
 
     def leaf(inp):
         names = [c for c, _ in inp["cols"]]
@@ -267,9 +329,18 @@ def oracle(case):
             o = {}
             for c in cols_req:
                 vs = [r[c] for r in rows]
-                v = sum(vs) if agg[c] == "sum" else (max(vs) if agg[c] == "max" else min(vs))
+                v = AGG_REF[agg[c]](vs)
                 if isinstance(v, int) and not (I64[0] <= v <= I64[1]):
                     flags["i64"] = True
+                if isinstance(v, float) and not str(bits[c]).startswith("f"):
+                    # a float-valued aggregate headed for an integer column (pandas hands float data to write_pixels,
+                    # which the integer fit check does not look at): exact only if it is integral AND inside the dtype;
+                    # anything else must be refused -- finding D32 (same root cause for all three)
+                    if v == v and v == int(v) and _fits(bits[c], int(v)):
+                        v = int(v)
+                    else:
+                        flags["f2i"] = True
+                        return "refuse"
                 if not _fits(bits[c], v):
                     return "refuse"
                 o[c] = float(v) if str(bits[c]).startswith("f") else v
@@ -277,14 +348,14 @@ def oracle(case):
         if "count" in cols_req and not flags["i64"]:
             # "its recorded total is the sum of the input totals": a total that cannot be recorded must be an error
             tot = sum(o["count"] for o in out.values())
-            if isinstance(tot, int) and not (I64[0] <= tot <= I64[1]):
+            if isinstance(tot, int) and not isinstance(tot, bool) and not (I64[0] <= tot <= I64[1]):
                 flags["tot64"] = True
                 return "refuse"
         return {"ax": k0["ax"], "symm": k0["symm"], "bits": bits, "tab": out}
 
     tree = case.get("tree") or list(case.get("order") or range(len(case["inputs"])))
     r = node(tree)
-    sig = SIG_I64 if flags["i64"] else (SIG_TOT if flags["tot64"] else None)
+    sig = SIG_I64 if flags["i64"] else (SIG_TOT if flags["tot64"] else (SIG_F2I if flags["f2i"] else None))
     if r == "refuse":
         return "refuse", sig
     keys = sorted(r["tab"])
@@ -327,7 +398,7 @@ def verdict(ctx, case, got, exp, i64):
             ctx.fail(case, {"expected": "refusal (error)", "got": got}, None)
             return False
         return True
-    if got != exp:
+    if not same(got, exp):
         ctx.fail(case, {"expected": exp, "got": got}, None)
         return False
     return True
@@ -623,6 +694,74 @@ def audit_cases(rng):
     return cs
 
 
+AGG_KINDS = ["sum", "mean", "min", "max", "first", "last", "size", "count", "nunique", "var", "std", "median", "prod",
+             "callable:range", "callable:sumsq"]
+
+
+def agg_support_families(rng):
+    """input families that decide which merge epochs see one / several / no input: disjoint row supports,
+    partially overlapping, identical, an EMPTY input among the inputs, k = 1, k = 4"""
+    c2 = [("count", 32), ("x", 16)]
+    n = G.nbins("A6")
+    keys = G.all_keys(n, True)
+
+    def tab(ks):
+        return [[i, j, [rng.randint(1, 9), rng.randint(-5, 9)]] for (i, j) in sorted(ks)]
+    fams = {}
+    k = 3
+    fams["disjoint-rows"] = [tab([q for q in rng.sample(keys, 12) if q[0] % k == i]) for i in range(k)]
+    fams["overlap"] = [tab(rng.sample(keys, rng.randint(3, 7))) for _ in range(3)]
+    same_keys = rng.sample(keys, 5)
+    fams["identical"] = [tab(same_keys)] * 2
+    fams["with-empty"] = [tab(rng.sample(keys, 5)), [], tab(rng.sample(keys, 4))]
+    fams["k1"] = [tab(rng.sample(keys, 6))]
+    fams["k4"] = [tab(rng.sample(keys, rng.randint(2, 6))) for _ in range(4)]
+    return {nm: [inp("A6", True, c2, t) for t in tabs] for nm, tabs in fams.items()}
+
+
+def agg_cases(rng, thorough):
+    """every kind of aggregate pandas accepts in `agg`, for count and for an extra column, over the support families,
+    with mergebuf 1, a middle value and > nnz (the result must not depend on it)"""
+    cs = []
+    fams = agg_support_families(rng)
+    for ai, a in enumerate(AGG_KINDS):
+        for fi, (fam, ins) in enumerate(fams.items()):
+            variant = (ai + fi) % 4
+            if variant == 0:
+                columns, agg = None, {"count": a}
+            elif variant == 1:
+                columns, agg = ["count", "x"], {"x": a}
+            elif variant == 2:
+                columns, agg = ["x"], {"x": a}
+            else:
+                columns, agg = ["x", "count"], {"count": a, "x": "sum"}
+            # a float-valued aggregate gets a float output column (the sensible call; the integer default is the finding below)
+            dtypes = {c: "f64" for c, f in agg.items() if f in FLOAT_AGGS} or None
+            nnz = sum(len(i["px"]) for i in ins)
+            bufs = sorted({1, max(2, nnz // 2), nnz + 1}) if thorough else sorted({1, rng.choice([2, 3, max(2, nnz // 2)]), nnz + 1})
+            for b in bufs:
+                cs.append(("agg:" + a.split(":")[0], mk(ins, b, columns=columns, agg=agg, dtypes=dtypes)))
+    # CLI spelling of a few
+    ins = fams["disjoint-rows"]
+    cs.append(("agg:cli", mk(ins, 1, via="cli", columns=["count", "x"], agg={"count": "size", "x": "mean"}, dtypes={"x": "f64"})))
+    cs.append(("agg:cli", mk(ins, 3, via="cli", columns=["x"], agg={"x": "nunique"})))
+    # REAL defect (reported): float-valued aggregates into the default integer columns are truncated silently
+    a = inp("A4", True, [("count", 32), ("x", 16)], [(0, 1, [3, 5]), (1, 2, [5, -2]), (2, 2, [1, 4])])
+    b = inp("A4", True, [("count", 32), ("x", 16)], [(0, 1, [4, 5]), (2, 2, [7, 9]), (3, 3, [2, 1])])
+    c = inp("A4", True, [("count", 32), ("x", 16)], [(0, 1, [4, 6])])
+    cs.append(("finding:float-into-int", mk([a, b, c], 2, columns=["count", "x"], agg={"count": "mean", "x": "mean"})))
+    cs.append(("finding:float-into-int", mk([a, b, c], 2, columns=["count", "x"], agg={"x": "var"})))
+    cs.append(("limits", mk([a, a], 2, columns=["count", "x"], agg={"count": "mean", "x": "median"})))       # integral means: exact in int columns
+    # same root cause, integral but out of range: mean of x = 200, 200 into int8 is stored as 127; -2.0 into uint8 as 0
+    h1 = inp("A4", True, [("count", 32), ("x", 16)], [(0, 1, [3, 200]), (1, 2, [5, -2])])
+    h2 = inp("A4", True, [("count", 32), ("x", 16)], [(0, 1, [4, 200]), (2, 2, [7, 9])])
+    cs.append(("finding:float-into-int", mk([h1, h2], 5, columns=["count", "x"], agg={"x": "mean"}, dtypes={"x": 8})))
+    cs.append(("finding:float-into-int", mk([h1, h2], 5, columns=["count", "x"], agg={"x": "mean"}, dtypes={"x": "u8"})))
+    cs.append(("limits", mk([h1, h2], 5, columns=["count", "x"], agg={"x": "sum"}, dtypes={"x": 8})))        # integer data: refused (D10 fix)
+    cs.append(("limits", mk([h1, h2], 5, columns=["count", "x"], agg={"x": "mean"}, dtypes={"x": 16})))      # 200.0 fits int16: exact
+    return cs
+
+
 def nontrivial(case, exp):
     if exp == "refuse":
         return True
@@ -748,6 +887,7 @@ def run(ctx):
     cases += incompatible_cases(rng)
     cases += cli_cases(rng)
     cases += audit_cases(rng)
+    cases += agg_cases(rng, thorough)
 
     idx = [i for i, (_, case) in enumerate(cases) if modelled(case)]
     exprs = [model_expr(ws, cases[i][1]) for i in idx]
@@ -811,4 +951,4 @@ def replay(ctx, case):
     print("got     :", got)
     if exp == "refuse":
         return not isinstance(got, dict) and got != "timeout"
-    return got == exp
+    return same(got, exp)
